@@ -82,6 +82,9 @@ func (store *Store) pathForKey(key string) string {
 
 // Has implements go-ipld-prime/storage.Storage.Has.
 func (store *Store) Has(ctx context.Context, key string) (bool, error) {
+	if err := verifHook("has.stat", store.pathForKey(key)); err != nil {
+		return false, err
+	}
 	_, err := os.Stat(store.pathForKey(key))
 	if err == nil {
 		return true, nil
@@ -113,6 +116,10 @@ func (store *Store) Put(ctx context.Context, key string, content []byte) error {
 	}
 	// Write, all at once.
 	// Note we can ignore the size return, because the contract of io.Writer states "Write must return a non-nil error if it returns n < len(p)".
+	if err := verifHook("put.write"); err != nil {
+		wrCommitter("")
+		return err
+	}
 	_, err = wr.Write(content)
 	if err != nil {
 		wrCommitter("")
@@ -133,6 +140,9 @@ func (store *Store) GetStream(ctx context.Context, key string) (io.ReadCloser, e
 
 	// Open and return.
 	// TODO: we should normalize things like "not exists" errors before hurling them up the stack.
+	if err := verifHook("getstream.open", destpath); err != nil {
+		return nil, err
+	}
 	return os.OpenFile(destpath, os.O_RDONLY, 0)
 }
 
@@ -146,6 +156,9 @@ func (store *Store) PutStream(ctx context.Context) (io.Writer, func(string) erro
 		var bs [8]byte
 		rand.Read(bs[:])
 		stagepath := filepath.Join(store.basepath, stagingDir, hex.EncodeToString(bs[:]))
+		if err := verifHook("putstream.create", stagepath); err != nil {
+			return nil, nil, err
+		}
 		f, err := os.OpenFile(stagepath, os.O_CREATE|os.O_EXCL|os.O_WRONLY, 0666)
 		if os.IsExist(err) {
 			continue
@@ -156,10 +169,16 @@ func (store *Store) PutStream(ctx context.Context) (io.Writer, func(string) erro
 		// Okay, got a handle.  Return it... and its commit closure.
 		return f, func(key string) error {
 			// Close the staging file.
+			if err := verifHook("commit.close", stagepath); err != nil {
+				return err
+			}
 			if err := f.Close(); err != nil {
 				return err
 			}
 			if key == "" {
+				if err := verifHook("commit.abort.remove", stagepath); err != nil {
+					return err
+				}
 				return os.Remove(stagepath)
 			}
 			// n.b. there is a lack of fsync here.  I am going to choose to believe that a sane filesystem will not let me do a 'move' without flushing somewhere in between.
@@ -230,6 +249,9 @@ func CheckAndMakeBasepath(basepath string) error {
 // (An alternative approach would be to blindly mkdir the parent segments every time,
 // rather than do this backwards stepping.  Have not benchmarked these against each other.)
 func move(stagepath, destpath string) error {
+	if err := verifHook("move.rename1", stagepath, destpath); err != nil {
+		return err
+	}
 	err := os.Rename(stagepath, destpath)
 	if os.IsNotExist(err) {
 		// This probably means parent of destpath doesn't exist yet, so we'll make it.
@@ -242,12 +264,18 @@ func move(stagepath, destpath string) error {
 		}
 		// Now try again.
 		//  (And don't return quite yet; there's one more check to do, because someone might've raced us.)
+		if err := verifHook("move.rename2", stagepath, destpath); err != nil {
+			return err
+		}
 		err = os.Rename(stagepath, destpath)
 	}
 	if os.IsExist(err) {
 		// Oh!  Some content is already there?
 		//  We're a write-once (presumed-to-be-)content-addressable blob store -- that means *we keep what already exists*.
 		//  FIXME: no, I wish this is how the Rename function worked, but it is not, actually.
+		if err := verifHook("move.exists.remove", stagepath); err != nil {
+			return err
+		}
 		return os.Remove(stagepath)
 	}
 	return err
@@ -258,9 +286,15 @@ func move(stagepath, destpath string) error {
 // except this function is going to assume if it exists, it's a dir,
 // and that saves us some stat syscalls.
 func haveDir(pth string) error {
+	if err := verifHook("havedir.mkdir", pth); err != nil {
+		return err
+	}
 	err := os.Mkdir(pth, 0777)
 	if os.IsNotExist(err) {
 		if err := haveDir(filepath.Dir(pth)); err != nil {
+			return err
+		}
+		if err := verifHook("havedir.mkdir2", pth); err != nil {
 			return err
 		}
 		return os.Mkdir(pth, 0777)
